@@ -7,6 +7,7 @@ import (
 
 	plush "github.com/gobuffalo/plush/v5"
 
+	"verifharness/ent"
 	"verifharness/gen"
 	"verifharness/vrt"
 )
@@ -128,12 +129,13 @@ func noNUL(s string) {
 
 func check(parts []part) {
 	input := join(parts)
-	want := refRender(parts)
+	wantFn := func() string { return refRender(parts) }
+	wantFn() // the reference scanner's assumptions (text bytes that form a tag opener) come first
 	vrt.Note("input", input)
 	got, err := plush.Render(input, newCtx())
 	vrt.Note("got", got)
 	vrt.Assert(err == nil, "a well-formed template renders")
-	vrt.Assert(got == want, "output = literal text + values of output tags, in order")
+	vrt.Assert(ent.Same(got, wantFn), "output = literal text + values of output tags, in order")
 	vrt.Cover("rendered")
 }
 
@@ -182,27 +184,6 @@ func TextAndTags() {
 	check(parts)
 }
 
-func htmlEsc(s string) string {
-	out := ""
-	for i := 0; i < len(s); i++ {
-		switch s[i] {
-		case '<':
-			out += "&lt;"
-		case '>':
-			out += "&gt;"
-		case '&':
-			out += "&amp;"
-		case '\'':
-			out += "&#39;"
-		case '"':
-			out += "&#34;"
-		default:
-			out += s[i : i+1]
-		}
-	}
-	return out
-}
-
 // (D) a double-quoted string denotes the characters between its quotes, \" = quote
 func StringLiteral() {
 	max := 3
@@ -243,20 +224,21 @@ func stringLiteral(s string) {
 		i++
 	}
 	kind := vrt.Choice(3)
-	var input, want string
+	var input string
+	var want func() string
 	switch kind {
 	case 0:
-		input, want = "a<%= \""+s+"\" %>b", "a"+htmlEsc(val)+"b"
+		input, want = "a<%= \""+s+"\" %>b", func() string { return "a" + ent.Esc(val) + "b" }
 	case 1:
-		input, want = "<% let x = \""+s+"\" %>[<%= x %>]", "["+htmlEsc(val)+"]"
+		input, want = "<% let x = \""+s+"\" %>[<%= x %>]", func() string { return "[" + ent.Esc(val) + "]" }
 	default:
-		input, want = "<%= raw(\""+s+"\") %>", val
+		input, want = "<%= raw(\""+s+"\") %>", func() string { return val }
 	}
 	vrt.Note("input", input)
 	got, err := plush.Render(input, newCtx())
 	vrt.Note("got", got)
 	vrt.Assert(err == nil, "a template with a terminated string renders")
-	vrt.Assert(got == want, "a double-quoted string denotes exactly the characters between its quotes")
+	vrt.Assert(ent.Same(got, want), "a double-quoted string denotes exactly the characters between its quotes")
 	vrt.Cover("rendered")
 }
 
@@ -277,7 +259,7 @@ func BStringLiteral() {
 	got, err := plush.Render(input, newCtx())
 	vrt.Note("got", got)
 	vrt.Assert(err == nil, "a template with a terminated back-quoted string renders")
-	vrt.Assert(got == "a"+htmlEsc(s)+"b", "a back-quoted string is taken raw")
+	vrt.Assert(ent.Same(got, func() string { return "a" + ent.Esc(s) + "b" }), "a back-quoted string is taken raw")
 	vrt.Cover("rendered")
 }
 
@@ -308,13 +290,14 @@ func TagsInBlocks() {
 	// the opening and closing tags of the construct are tags for the reference
 	// scanner too (a text byte may not escape or extend them)
 	body := []part{{pre, true, ""}, {text: s0}, inner, {text: s1}, {post, true, ""}}
-	want := refRender(body)
+	wantFn := func() string { return refRender(body) }
+	wantFn()
 	input := join(body)
 	vrt.Note("input", input)
 	got, err := plush.Render(input, newCtx())
 	vrt.Note("got", got)
 	vrt.Assert(err == nil, "a well-formed template renders")
-	vrt.Assert(got == want, "inside a block: output = literal text + values of output tags, in order")
+	vrt.Assert(ent.Same(got, wantFn), "inside a block: output = literal text + values of output tags, in order")
 	vrt.Cover("rendered")
 }
 
